@@ -436,11 +436,27 @@ pub fn partition_ids<'a>() -> impl Parser<FrameStream<'a>, Output = HashSet<Part
             } => {
                 let data = str::from_utf8(data).ok()?;
 
-                // Otherwise try comma-separated list
-                data.split(',')
-                    .map(|part| part.trim().parse::<PartitionId>())
-                    .collect::<Result<_, _>>()
-                    .ok()
+                // Comma-separated list of partition ids and inclusive `first-last` ranges
+                // (the client's subscribe_to_partitions / subscribe_to_partition_range
+                // send e.g. "0-127")
+                let mut ids = HashSet::new();
+                for part in data.split(',') {
+                    let part = part.trim();
+                    match part.split_once('-') {
+                        Some((first, last)) => {
+                            let first = first.trim().parse::<PartitionId>().ok()?;
+                            let last = last.trim().parse::<PartitionId>().ok()?;
+                            if first > last {
+                                return None;
+                            }
+                            ids.extend(first..=last);
+                        }
+                        None => {
+                            ids.insert(part.parse::<PartitionId>().ok()?);
+                        }
+                    }
+                }
+                Some(ids)
             }
             BytesFrame::BigNumber { data, .. } => {
                 // Handle Number frames directly
